@@ -18,11 +18,11 @@ func init() {
 		[]string{"uint8 arithmetic wraps; comparison results depend on the ordering of the operands only"},
 		runC01)
 	register("C09",
-		"WIN-5 admission: in the send loop every path from one addPacket to the next passes a block dominated by size() < n; sendDataChan is unbuffered, received only by the send loop's main select and sent only by Send's hand-off (so Send blocks exactly while the loop is not admitting). SEQSPACE: every definition of an s field is X+1 with X the value stored to the sibling n (or config.n) and X <= 254, so the sequence space is strictly larger than the window for every constructor and for setN; syncer.s is the queue's s. SIZE: queue.size() is one of the two accepted closed forms of (top - base) mod s. Plus INV, WIN-4 and ORD-1 as for C01/C07. Not decided: the instantaneous outstanding count under all ACK/NACK schedules (follows from these facts only by an inductive argument the checker does not make).",
+		"WIN-5 admission: in the send loop every path from one addPacket to the next passes a block dominated by size() < n; sendDataChan is unbuffered, received only by the send loop's main select and sent only by Send's hand-off (so Send blocks exactly while the loop is not admitting). SEQSPACE: every definition of an s field is X+1 with X the value stored to the sibling n (or config.n) and X <= 254, so the sequence space is strictly larger than the window for every constructor and for setN; syncer.s is the queue's s. SIZE: queue.size() is one of the two accepted closed forms of (top - base) mod s. Plus INV, WIN-4 and ORD-1 as for C01/C07. The lock-order, race and close-site obligations of C18 are imported (Send blocks only until an ACK frees a slot presupposes that the two loops cannot deadlock on the queue's mutexes). Not decided: the instantaneous outstanding count under all ACK/NACK schedules (follows from these facts only by an inductive argument the checker does not make).",
 		[]string{"uint8 arithmetic wraps"},
 		runC09)
 	register("C10",
-		"GBNHS-1: in serverHandshake the N echoed in the SYN reply and the argument of setN are the same value, read from the N field of a received PacketSYN and proved <= 254; the 'resent' shortcut can only be taken after a SYN was processed. GBNHS-2: in clientHandshake the SYNACK is sent only under respSYN.N == cfg.n and the unequal leg returns an error. GBNHS-3: while waiting for SYN a successfully parsed non-SYN packet cannot complete the handshake without another receive (client: any type; server: except SYNACK/DATA after a restart). GBNHS-4: NewClientConn rejects n == 255 before the config is built. GBNHS-7: in clientHandshake every path from a timeout leg back to the wait passes a send of a serialized SYN; the server's restart shortcut is entered only through a successful type test for SYNACK or DATA. GBNHS-6: every blocking wait of a handshake function that has a timeout alternative is entered with a freshly armed timeout (time.After evaluated, or the timer Reset, on every path from the wait back to itself); every nil return of serverHandshake outside the quit/ctx cases is preceded by setN. GBNHS-5: in both handshake functions every blocking wait on the local packet channel is preceded - from function entry and from the point where the previous packet was taken - by a send attempt on the local token channel that lets the reader goroutine perform the next receive (so a stale packet that is ignored does not leave the handshake waiting for a timeout). GBNHS-5 also: the re-arm send on the token channel is non-blocking. GBNHS-2/3 also: the client SYN carries cfg.n, a non-SYN never ends the client wait, the restart shortcut takes SYNACK and DATA, no send error of a handshake is dropped. Not decided: convergence under loss/duplication/stale packets and success once the transport behaves (liveness).",
+		"GBNHS-1: in serverHandshake the N echoed in the SYN reply and the argument of setN are the same value, read from the N field of a received PacketSYN and proved <= 254; the 'resent' shortcut can only be taken after a SYN was processed. GBNHS-2: in clientHandshake the SYNACK is sent only under respSYN.N == cfg.n and the unequal leg returns an error. GBNHS-3: while waiting for SYN a successfully parsed non-SYN packet cannot complete the handshake without another receive (client: any type; server: except SYNACK/DATA after a restart). GBNHS-4: NewClientConn rejects n == 255 before the config is built. GBNHS-7: in clientHandshake every path from a timeout leg back to the wait passes a send of a serialized SYN; the server's restart shortcut is entered only through a successful type test for SYNACK or DATA. GBNHS-6: every blocking wait of a handshake function that has a timeout alternative is entered with a freshly armed timeout (time.After evaluated, or the timer Reset, on every path from the wait back to itself); every nil return of serverHandshake outside the quit/ctx cases is preceded by setN. GBNHS-5: in both handshake functions every blocking wait on the local packet channel is preceded - from function entry and from the point where the previous packet was taken - by a send attempt on the local token channel that lets the reader goroutine perform the next receive (so a stale packet that is ignored does not leave the handshake waiting for a timeout). GBNHS-5 also: the re-arm send on the token channel is non-blocking. GBNHS-2/3 also: the client SYN carries cfg.n, a non-SYN never ends the client wait, the restart shortcut takes SYNACK and DATA, no send error of a handshake is dropped. GBNHS-2 also: the error leg of the constructors returns a certain error (the tested value, a freshly made error, a package-level error variable) - not the result of a later call such as Close(), which is nil. Not decided: convergence under loss/duplication/stale packets and success once the transport behaves (liveness).",
 		nil,
 		runC10)
 }
